@@ -15,6 +15,7 @@
 import Proofs.GoTieNonce
 import Proofs.GoTieStreamR
 import Proofs.GoTieWitnessA
+import Proofs.GoTieStreamRT
 namespace AgeModel
 namespace Tie.C02
 
@@ -63,6 +64,34 @@ theorem reader_new_rel {α : Type} (a : α) (data : Bytes) (fail : Bool) :
     GoTie.RRel (⟨a, ⟨data, fail⟩, 0, 0, List.replicate 65552 0, none, List.replicate 12 0⟩ : Extracted.stream_Reader α)
       (AgeModel.Stream.Reader.new ⟨data, fail⟩) :=
   GoTie.reader_new_rel a data fail
+
+/-! ### The property, stated about the CODE
+
+`streamReads` drives the translated `Read` call by call (`Tie/C12.streamReads_tie`: it yields what the model's
+reader yields). Composed with `Props.C12.reader_refines_spec` and `Props.C02.accepts_only_own_chunking`:
+whatever bytes are presented as the payload, if the translated reader has released `out` and then reports
+io.EOF, the payload IS the canonical encryption of `out` under that key — re-split, re-flagged, reordered,
+truncated, extended or otherwise altered payloads never end cleanly. -/
+
+theorem code_accepts_only_own_chunking {α : Type} (A : AEAD) (hA : A.Correct) (k : Bytes) (E : GoTie.AeadEnv α A k) (a : α)
+    (c : Bytes) (hc : c.length < 2 ^ 88 - 1) (sizes : List Nat) (hpos : ∀ s ∈ sizes, 0 < s)
+    (hlong : (Stream.decrypt A 65536 k c).1.length + c.length + 1 < sizes.length) (g' : Extracted.stream_Reader α) (out : Bytes)
+    (h : GoTie.streamReads E ⟨a, ⟨c, false⟩, 0, 0, List.replicate 65552 0, none, List.replicate 12 0⟩ sizes = .ok (g', out, Go.io_EOF)) :
+    c = Stream.encrypt A 65536 k out :=
+  GoTie.code_accepts_only_own_chunking A hA k E a c hc sizes hpos hlong g' out h
+
+/-- non-vacuity of the main premise: runs of the translated reader that end with io.EOF exist, for every key and every
+    input below 2^64 bytes, with one-byte reads (the run of `Tie/C12.code_stream_roundtrip` seen from the reader; the other
+    premises are bounds on lengths) -/
+theorem code_accepts_only_own_chunking_instance (k : Bytes) (ps : List Bytes) (hlen : ps.flatten.length < 2 ^ 64) :
+    ∃ c sizes g', (∀ s ∈ sizes, 0 < s) ∧
+      GoTie.streamReads (GoTie.AeadEnv.witness k) ⟨(), ⟨c, false⟩, 0, 0, List.replicate 65552 0, none, List.replicate 12 0⟩ sizes =
+        .ok (g', ps.flatten, Go.io_EOF) := by
+  obtain ⟨w1, w2, r', _, _, h3⟩ := GoTie.code_stream_roundtrip AEAD.toy16 AEAD.toy16_correct AEAD.toy16_nonceSep k (GoTie.AeadEnv.witness k)
+    (GoTie.DstEnv.witness Stream.DstSpec.perfect) () ⟨[], ()⟩ rfl ps hlen
+    (List.replicate (ps.flatten.length + (Stream.encrypt AEAD.toy16 65536 k ps.flatten).length + 2) 1)
+    (by intro s hs; rw [List.mem_replicate] at hs; omega) (by rw [List.length_replicate]; omega)
+  exact ⟨_, _, r', by intro s hs; rw [List.mem_replicate] at hs; omega, h3⟩
 
 /-- **the assumption structures this file's theorems take are satisfiable** (for a lawful toy primitive suite
     with the 16-byte tag, where they mention primitives): none of the theorems above is vacuous. The instances are in
